@@ -13,6 +13,32 @@
 #include <iomanip>
 #include <limits>
 
+#include <boost/lexical_cast.hpp>
+
+namespace boost {
+/**
+ * @brief validate unsigned (32 bit) options
+ *
+ * The generic validator uses boost::lexical_cast, which accepts a minus sign
+ * for unsigned types and wraps the number around ("-1" becomes 4294967295).
+ * A negative value for an unsigned option is malformed and is rejected here.
+ */
+void validate(boost::any& v, const std::vector<std::string>& values,
+              uint32_t*, int)
+{
+    po::validators::check_first_occurrence(v);
+    const std::string& s = po::validators::get_single_string(values);
+    if (s.find('-') != std::string::npos) {
+        boost::throw_exception(po::invalid_option_value(s));
+    }
+    try {
+        v = boost::any(boost::lexical_cast<uint32_t>(s));
+    } catch (const boost::bad_lexical_cast&) {
+        boost::throw_exception(po::invalid_option_value(s));
+    }
+}
+} // namespace boost
+
 vfps::ProgramOptions::ProgramOptions() :
     _configfile("default.cfg"),
     I_b({3e-3f}),
